@@ -163,6 +163,28 @@ theorem querySkip_eq (g : GQuery) (n : Int) : toQ (Query_Skip g n) = (toQ g).ski
 theorem queryLimit_eq (g : GQuery) (n : Int) : toQ (Query_Limit g n) = (toQ g).limitB n := by
   simp [Query_Limit, Query_copy, Query.limitB, toQ, Id.run, id_pure]
 
+/-- the comparison operator a constant's name stands for -/
+def opOf (s : String) : Option CmpOp :=
+  if s == "EqOp" then some .eq else if s == "LtOp" then some .lt else if s == "LtEqOp" then some .le
+  else if s == "GtOp" then some .gt else if s == "GtEqOp" then some .ge else none
+
+theorem opOf_opName (op : CmpOp) : opOf (opName op) = some op := by cases op <;> rfl
+
+/-- the model's criterion a planner-built criterion denotes (`none`: an operator name without a model counterpart) -/
+def critOf : GCrit → Option Crit
+  | .unary u => (opOf u.OpType).map (fun op => .cmp op u.Field u.Value)
+  | .binary op a b =>
+    match critOf a, critOf b with
+    | some x, some y => if op == "LogicalAnd" then some (.and x y) else if op == "LogicalOr" then some (.or x y) else none
+    | _, _ => none
+  | .notU c => (opOf c.C.OpType).map (fun op => .not (.cmp op c.C.Field c.C.Value))
+
+/-- `NotFlattenVisitor.removeNotCriteria` (visit.go) as the current source writes it: the negation of a comparison leaf
+    is the model's `negLeaf` - `not (f = x)` becomes `f < x or f > x`, and the four ordering operators swap -/
+theorem removeNotCriteria_eq (op : CmpOp) (f : Bytes) (x : Operand) :
+    critOf (removeNotCriteria ⟨⟨opName op, f, x⟩⟩) = some (negLeaf op f x) := by
+  cases op <;> simp [removeNotCriteria, negLeaf, opName, critOf, opOf, Id.run, id_pure]
+
 variable (likeFn : LikeFn) (fnFam : FnFam)
 
 /-- `BinaryCriteria.Satisfy` / `NotCriteria.Satisfy` as the current source writes them, with each sub-criterion
